@@ -175,7 +175,7 @@ theorem C14_to_from_full {m : LegacyMeta} {wm : W3CMeta} {values : Values} {subj
     ∃ back, fromW3C wm subj = some back ∧ encodedView back = encodedView values ∧
       CanonicallyEncoded back := by
   obtain ⟨_, rfl⟩ := toW3C_eq_some h
-  refine ⟨_, ?_, ?_, ?_⟩
+  refine ⟨values.map (fun nv => (nv.1, (normalizeEnc nv.2.1, encode nv.2.1))), ?_, ?_, ?_⟩
   · simp only [fromW3C, hw, hs, Bool.not_true, Bool.false_eq_true, if_false]
     exact C14_to_from_computed values
   · simp only [encodedView, List.map_map]
@@ -334,7 +334,7 @@ theorem C14_to_accepts_iff (m : LegacyMeta) (values : Values) :
     simp only [Option.some.injEq, forall_eq']
     rw [← e3]
     cases idValid .schema m.schemaId <;> cases idValid .credDef m.credDefId <;>
-      cases idValid .revRegDef r <;> cases m.hasWitness <;> cases m.hasRevReg <;> simp
+      cases h3 : idValid .revRegDef r <;> cases m.hasWitness <;> cases m.hasRevReg <;> simp [h3]
 
 /-- a credential without values is refused -/
 theorem C14_refuses_empty (m : LegacyMeta) : toW3C m [] = none :=
@@ -344,7 +344,7 @@ theorem C14_refuses_empty (m : LegacyMeta) : toW3C m [] = none :=
 theorem C14_refuses_bad_schema_id {m : LegacyMeta} (values : Values)
     (h : ¬ (IsUri m.schemaId.toList ∨ IsLegacySchemaId m.schemaId.toList)) : toW3C m values = none := by
   refine (C14_to_refuses_iff m values).mpr (Or.inr (Or.inl ?_))
-  have := (C20_id_valid_iff .schema m.schemaId).not.mpr h
+  have := (not_congr (C20_id_valid_iff .schema m.schemaId)).mpr h
   simpa using this
 
 /-- a credential whose credential-definition id is neither a URI nor a legacy credential-definition
@@ -353,7 +353,7 @@ theorem C14_refuses_bad_cred_def_id {m : LegacyMeta} (values : Values)
     (h : ¬ (IsUri m.credDefId.toList ∨ IsLegacyCredDefId m.credDefId.toList)) :
     toW3C m values = none := by
   refine (C14_to_refuses_iff m values).mpr (Or.inr (Or.inr (Or.inl ?_)))
-  have := (C20_id_valid_iff .credDef m.credDefId).not.mpr h
+  have := (not_congr (C20_id_valid_iff .credDef m.credDefId)).mpr h
   simpa using this
 
 /-- a credential whose registry id is neither a URI nor a legacy registry id is refused -/
@@ -361,7 +361,7 @@ theorem C14_refuses_bad_rev_reg_id {m : LegacyMeta} (values : Values) {r : Strin
     (hr : m.revRegId = some r) (h : ¬ (IsUri r.toList ∨ IsLegacyRevRegDefId r.toList)) :
     toW3C m values = none := by
   refine (C14_to_refuses_iff m values).mpr (Or.inr (Or.inr (Or.inr (Or.inl ⟨r, hr, ?_⟩))))
-  have := (C20_id_valid_iff .revRegDef r).not.mpr h
+  have := (not_congr (C20_id_valid_iff .revRegDef r)).mpr h
   simpa using this
 
 /-- a credential naming a registry but lacking the witness is refused -/
@@ -446,11 +446,11 @@ example : CanonicallyEncoded [("a", ("Alice", Encode.encode "Alice"))] := by
   simp only [List.mem_cons, List.not_mem_nil, or_false] at h
   subst h; rfl
 example : RawAfterTrip "Alice" "Alice" :=
-  Or.inr ⟨fun ⟨n, h⟩ => by
-    have := (C13_parseI32_spec _ _).mpr h; rw [show parseI32 _ = none by decide] at this; cases this, rfl⟩
+  Or.inr ⟨fun ⟨n, h⟩ => (by
+    have := (C13_parseI32_spec _ _).mpr h; rw [show parseI32 _ = none by decide] at this; cases this), rfl⟩
 example : RawAfterTrip "2147483648" "2147483648" :=
-  Or.inr ⟨fun ⟨n, h⟩ => by
-    have := (C13_parseI32_spec _ _).mpr h; rw [show parseI32 _ = none by decide] at this; cases this, rfl⟩
+  Or.inr ⟨fun ⟨n, h⟩ => (by
+    have := (C13_parseI32_spec _ _).mpr h; rw [show parseI32 _ = none by decide] at this; cases this), rfl⟩
 -- W3C → legacy → W3C: a numeric string becomes a number; the range hypothesis of
 -- `C14_from_to_exact` is needed in the model
 example : fromW3C okW3C [("a", .str "007")] = some [("a", ("007", "7"))] := by decide
